@@ -3,7 +3,7 @@ from .. import core, traces, universe as U
 
 
 def _mixtures(tier):
-    return ["H2O_EtOH", "MeOH_DMC", "S2", "S4"] if tier == "quick" else list(U.ALL_MIXTURES)
+    return ["H2O_EtOH", "MeOH_DMC", "S2", "S5"] if tier == "quick" else list(U.ALL_MIXTURES)
 
 
 def _model_ok(c):
@@ -24,7 +24,7 @@ def ideal_space(tier, seed, coarse=False):
         "amount": [0.047, 50.0],
         "dt": core.lat([0.1, 2.0], seed),
         "steps": [1, 3, 6] if q else [1, 3, 6, 12],
-        "x0": core.lat([0.1, 0.45, 0.9], seed),
+        "x0": [5e-4] + core.lat([0.1, 0.45, 0.9], seed) + ([] if q else [0.9996]),  # incl. trace feeds (fractions below 1e-3)
         "basis": ["weight", "molar"],
         "T": core.lat([313.15, 353.15], seed),
         "P": [(1e-3, 2e-5)],
@@ -46,6 +46,7 @@ CURVE_CONFIGS = {
     "two": {"law": "lawA", "temps": [313.15, 343.15]},
     "oneB_molar": {"law": "lawB", "temps": [333.15], "basis": "molar"},
     "threeB_SI": {"law": "lawB", "temps": [313.15, 333.15, 353.15], "units": "SI"},
+    "oneC": {"law": "lawC", "temps": [333.15]},
 }
 
 
@@ -54,7 +55,7 @@ def nonideal_space(tier, seed):
     # thorough: about 1.1 M traces
     alph = {
         "kind": ["nonideal_iso", "nonideal_noniso"],
-        "mixture": ["H2O_EtOH", "S2"] if q else ["H2O_EtOH", "MeOH_DMC", "S2", "S4"],
+        "mixture": ["H2O_EtOH", "S5"] if q else ["H2O_EtOH", "MeOH_DMC", "S2", "S5"],
         "model": ["NRTL", "UNIQUAC"],
         "mode": ["vac", ("T", -20.0), ("p", 0.5)] if q else ["vac", ("T", -60.0), ("T", -20.0), ("p", 0.5)],
         "prog": ["none", "poly3", "exp", "log3"] if q else ["none", "poly", "exp3", "log3"],
@@ -65,7 +66,7 @@ def nonideal_space(tier, seed):
         "amount": [0.047, 50.0],
         "dt": core.lat([0.1, 2.0], seed),
         "steps": [1, 3, 6] if q else [1, 3, 6, 12],
-        "x0": core.lat([0.1, 0.45], seed) if q else core.lat([0.1, 0.45, 0.8], seed),
+        "x0": [4e-4] + (core.lat([0.1, 0.45], seed) if q else core.lat([0.1, 0.45, 0.8], seed)),
         "basis": ["weight", "molar"],
         "T": [333.15, 318.15] if q else [333.15, 318.15, 351.15],
     }
